@@ -63,7 +63,9 @@ func readerReadRules(c *Ctx, prop string) {
 	type inT struct {
 		frameNil, frag, checkUTF8, valid bool
 		nfErr, nfFrameNil                bool
-		rdErr                            int // 0 nil 1 EOF 2 other
+		nfCtl                            bool // the header NextFrame returns is a control frame's
+		nfFinal, nfEmpty                 bool // the next data frame is the final one / has no payload
+		rdErr                            int  // 0 nil 1 EOF 2 other
 		left                             bool
 	}
 	var cur inT
@@ -78,13 +80,32 @@ func readerReadRules(c *Ctx, prop string) {
 		mm.Emit(fold.Effect{Kind: "call", Name: "NextFrame", Args: cl.Args})
 		cur.nfErr = mm.Choose("nf.err", 2) == 1
 		if cur.nfErr {
-			return fold.Tuple{headerVal(false, 0, 0, false, nil, fold.K(0)), fold.Sym{Name: "nf-error", NonNil: true}}
+			// the refused header is returned together with the error; it may be a control frame's
+			cur.nfCtl = mm.Choose("nf.ctl", 2) == 1
+			op := int64(0)
+			if cur.nfCtl {
+				op = 9
+			}
+			return fold.Tuple{headerVal(cur.nfCtl, 0, op, false, nil, fold.Int{Lo: 0, Hi: fold.MaxInt64, Name: "hdr.Length"}), fold.Sym{Name: "nf-error", NonNil: true}}
 		}
 		cur.nfFrameNil = mm.Choose("nf.framenil", 2) == 1
-		if !cur.nfFrameNil {
-			mm.Store(fold.Ref{O: recv, Path: []int{L.frame}}, fold.Iface{T: types.Typ[types.Invalid], V: fold.Sym{Name: "next-frame", NonNil: true}})
+		if cur.nfFrameNil {
+			// an intermediate control frame was handled inside NextFrame
+			return fold.Tuple{headerVal(true, 0, 9, false, nil, fold.K(0)), fold.Nil{}}
 		}
-		return fold.Tuple{headerVal(false, 0, 0, false, nil, fold.K(0)), fold.Nil{}}
+		mm.Store(fold.Ref{O: recv, Path: []int{L.frame}}, fold.Iface{T: types.Typ[types.Invalid], V: fold.Sym{Name: "next-frame", NonNil: true}})
+		cur.nfFinal = mm.Choose("nf.final", 2) == 1
+		cur.nfEmpty = mm.Choose("nf.empty", 2) == 1
+		var length fold.Val = fold.Int{Lo: 1, Hi: fold.MaxInt64, Name: "hdr.Length"}
+		rawN := fold.Ref{O: recv, Path: []int{L.raw, 1}}
+		if cur.nfEmpty {
+			length = fold.K(0)
+			mm.Store(rawN, fold.K(0))
+		}
+		if cur.nfFinal {
+			mm.Store(fold.Ref{O: recv, Path: []int{L.state}}, fold.K(1)) // NextFrame clears the fragmented bit
+		}
+		return fold.Tuple{headerVal(cur.nfFinal, 0, 0, false, nil, length.(fold.Int)), fold.Nil{}}
 	}
 	m.Models["invoke:(io.Reader).Read"] = func(cl *fold.Call) fold.Val {
 		mm := cl.M
@@ -150,8 +171,14 @@ func readerReadRules(c *Ctx, prop string) {
 		desc := fmt.Sprintf("[frame=nil:%v fragmented=%v checkUTF8=%v valid=%v nfErr=%v nfFrameNil=%v rdErr=%d left=%v]", in.frameNil, in.frag, in.checkUTF8, in.valid, in.nfErr, in.nfFrameNil, in.rdErr, in.left)
 		nf := r.p.Calls("NextFrame")
 		rd := r.p.Calls("frame.Read")
+		advanced := in.frameNil && in.frag && !in.nfErr && !in.nfFrameNil && len(nf) == 1
+		effFrag := in.frag
+		if advanced && in.nfFinal {
+			effFrag = false // the frame NextFrame moved to is the final one
+		}
+		desc += fmt.Sprintf("[next: ctl=%v final=%v empty=%v]", in.nfCtl, in.nfFinal, in.nfEmpty)
 		unchanged := r.fin.state == fmt.Sprint(func() int64 {
-			if in.frag {
+			if effFrag {
 				return 9
 			}
 			return 1
@@ -183,7 +210,14 @@ func readerReadRules(c *Ctx, prop string) {
 			problems = append(problems, "Read advances to another frame while one is being read "+desc)
 			continue
 		}
-		if len(rd) != 1 || fold.Show(rd[0].Args[1]) != "p" {
+		if len(rd) == 0 && advanced && in.nfEmpty {
+			// not reading an empty frame is fine: it counts as a read of nothing that hit the end of the frame
+			in.rdErr, in.left = 1, false
+			n = "n"
+			if fold.Show(ret[0]) != "0" {
+				problems = append(problems, "an empty frame that was not read is reported with "+fold.Show(ret[0])+" bytes "+desc)
+			}
+		} else if len(rd) != 1 || fold.Show(rd[0].Args[1]) != "p" {
 			problems = append(problems, "payload is not read with exactly one frame.Read(p) "+desc)
 			continue
 		}
@@ -203,7 +237,7 @@ func readerReadRules(c *Ctx, prop string) {
 			if e != "global:io.ErrUnexpectedEOF" {
 				problems = append(problems, "EOF with payload bytes outstanding must be io.ErrUnexpectedEOF "+desc+": "+e)
 			}
-		case in.frag:
+		case effFrag:
 			if e != "nil" || !strings.HasPrefix(n, "n") {
 				problems = append(problems, "end of a non-final fragment must return (n,nil) "+desc+": ("+n+","+e+")")
 			}
